@@ -188,6 +188,8 @@ func c06prun(cases []string, obs, oracle *common.Out) {
 				}
 				if o2 != "ok" && o3 != "ok" {
 					v = fmt.Sprintf("FAIL [C06] real process, lines written back-to-back: %s (three attempts: %s | %s | %s)", line, o, o2, o3)
+					// the same runs read for C05: a round (its go followed by stop where it is infinite) that is not answered within the limit
+					v += fmt.Sprintf(" ;; [C05] real process, a go with its stop directly behind it is not answered within 3 s (or the engine dies): %s (three attempts: %s | %s | %s)", line, o, o2, o3)
 				} else {
 					o = "ok"
 				}
